@@ -1,5 +1,5 @@
 (* C03 — incidence tables are exact transposes of one another. Statements only. *)
-From Verif Require Import Base C02 C03 C03_proofs C03_C02_proofs.
+From Verif Require Import Base C02 C02_sup C03 C03_proofs C03_C02_proofs C03_C02_sup_proofs.
 
 (* edge_face row e = (first face listing e, last face listing e or padding); loop-order model *)
 Theorem C03_edge_face : forall fe npf n e,
@@ -82,3 +82,29 @@ Theorem C03_edge_face_pipeline : forall m t e, std_table m t -> (e < length (edg
   = c03_row_of (c03_occ (face_edges t m) (n_nodes_per_face t) e).
 Proof. exact edge_face_of_table. Qed.
 Print Assumptions C03_edge_face_pipeline.
+
+(* ---- grids whose source supplied edge_node_connectivity (C02_sup model of the keep-or-replace branch) ---- *)
+
+(* every visit of the edge_face loop addresses a row of the edge table the grid reports *)
+Theorem C03_supplied_events_in_range : forall m t S, std_table m t ->
+  let R := sup_face_edges t m S in
+  Forall (fun ev => (fst ev < length (sr_edges R))%nat) (c03_events (sr_face_edges R) (n_nodes_per_face t) 0).
+Proof. exact sup_events_in_range. Qed.
+Print Assumptions C03_supplied_events_in_range.
+
+(* face f is listed for edge e iff row e of the REPORTED table is (up to orientation) a consecutive corner pair of f *)
+Theorem C03_supplied_edge_face_iff_edge_of_face : forall m t S, std_table m t -> forall e f,
+  let R := sup_face_edges t m S in
+  In f (c03_occ (sr_face_edges R) (n_nodes_per_face t) e) <->
+  exists i r q, nth_error t i = Some r /\ f = Z.of_nat i /\ In q (cyc_pairs (corners r)) /\
+     exists p, nth_error (sr_edges R) e = Some p /\ norm_pair p = norm_pair q.
+Proof. exact sup_occ_geometric. Qed.
+Print Assumptions C03_supplied_edge_face_iff_edge_of_face.
+
+Theorem C03_supplied_edge_face_pipeline : forall m t S, std_table m t -> forall e,
+  let R := sup_face_edges t m S in
+  (e < length (sr_edges R))%nat ->
+  nth e (c03_edge_faces (sr_face_edges R) (n_nodes_per_face t) (length (sr_edges R))) (FILL, FILL)
+  = c03_row_of (c03_occ (sr_face_edges R) (n_nodes_per_face t) e).
+Proof. exact sup_edge_face_of_table. Qed.
+Print Assumptions C03_supplied_edge_face_pipeline.
